@@ -3,11 +3,13 @@
 //  mode fa : drives a real FailableMemoryAllocator.  Allocations go either directly to
 //            alloc_memory(size, file, line) (family d) or through the tracked malloc / operator new /
 //            operator new[] with the allocator installed for the duration of that one call
-//            (families m, n, a); a successful allocation is released at once.  Designation nodes are
+//            (families m, n, a; plain and nothrow new p, q, t, u; the malloc / new macros M, W); a successful
+//            allocation is released at once.  Designation nodes are
 //            numbered by recording allocMemoryLeakNode / free_memory, so the trace shows WHICH
 //            designations an allocation consumed.  checkAllFailedAllocsWereDone runs as the body of
 //            a real test (TestTestingFixture) so that its failure text can be read.
-//  mode c  : the C-level countdown through cpputest_malloc / strdup / strndup / calloc.
+//  mode c  : the C-level countdown through cpputest_malloc / strdup / strndup / calloc, plus realloc / free
+//            (outside the countdown) and malloc_count after every call.
 //
 // Files come from a small pool; two pool entries have equal content at different addresses
 // (locations are compared by content).  The canonical op line carries the file CONTENT.
@@ -15,6 +17,20 @@
 #include "CppUTest/TestMemoryAllocator.h"
 #include "CppUTest/MemoryLeakDetectorNewMacros.h"
 #include "CppUTest/TestHarness_c.h"
+#include "CppUTest/MemoryLeakDetectorMallocMacros.h"
+#include <new>
+
+// Allocations written the way test code writes them, with the memory-leak MACROS still active
+// (`malloc(n)` = cpputest_malloc_location(n, __FILE__, __LINE__), `new` = new(__FILE__, __LINE__)).
+// The location the allocator sees is this source file and the line of the statement.
+namespace viamacro {
+enum { LINE_MALLOC = __LINE__ + 1 };
+inline void* m_alloc(size_t n) { return malloc(n); }
+inline void m_free(void* p) { free(p); }
+enum { LINE_NEW = __LINE__ + 1 };
+inline char* n_alloc(size_t n) { return new char[n]; }
+inline const char* this_file() { return __FILE__; }
+}
 
 #undef new
 #undef malloc
@@ -29,8 +45,21 @@ namespace {
 char F0[] = "a.c";
 char F1[] = "b.c";
 char F2[] = "a.c";          // same content as F0, different address
-char F3[] = "dir/a.c";
-char* const FILES[4] = { F0, F1, F2, F3 };
+char F3[] = "dir/a.c";       // differs from a.c only by a directory prefix: a different location
+char F4[] = "other/a.c";
+char F5[] = "<unknown>";     // own copy of the name the plain overloads report (with line 0)
+char F6[512];                // own copy of this source file's __FILE__ (locations of the macro allocations)
+enum { NFILES = 7 };
+char* const FILES[NFILES] = { F0, F1, F2, F3, F4, F5, F6 };
+// canonical name printed in the trace (the harness path differs between checkouts)
+const char* fname(unsigned fi) { return fi == 6 ? "<harness>" : FILES[fi]; }
+// the line that goes with a pool file: "<unknown>" is always reported with line 0; for this source file
+// the generator's line 0 / 1 stand for the malloc-macro / new-macro statement
+size_t fline(unsigned fi, size_t line) {
+    if (fi == 5) return 0;
+    if (fi == 6) return (line % 2 == 0) ? (size_t) viamacro::LINE_MALLOC : (size_t) viamacro::LINE_NEW;
+    return line;
+}
 
 // No std container inside the recording callbacks: they run while the allocator under test is
 // installed as the current new/malloc allocator, and a container would allocate through it.
@@ -57,6 +86,13 @@ struct RecFailable : public FailableMemoryAllocator {
 };
 
 RecFailable* g_fa = 0;
+char* volatile g_sink = 0;
+
+// realloc / free of the C level run as the body of a real test: under simulated out-of-memory the leak
+// detector refuses them with a test failure
+void* g_re_old = 0; size_t g_re_size = 0; void* volatile g_re_new = 0;
+void realloc_body() { g_re_new = cpputest_realloc(g_re_old, g_re_size); }
+void free_body() { cpputest_free(g_re_old); }
 
 void check_body() { g_fa->checkAllFailedAllocsWereDone(); }
 
@@ -69,6 +105,7 @@ std::string ids_line(const char* tag, const unsigned long* v, size_t n) {
 }
 
 void run_case(const vh::Case& c) {
+    strncpy(F6, viamacro::this_file(), sizeof F6 - 1);
     RecFailable* fa = new RecFailable();      // never destroyed: the process ends with the case
     g_fa = fa;
     std::string mode;
@@ -89,56 +126,62 @@ void run_case(const vh::Case& c) {
         }
         else if (mode == "fa" && w[0] == "failat" && w.size() == 4) {
             int n = (int) vh::to_i64(w[1]);
-            unsigned fi = (unsigned) vh::to_u64(w[2]) % 4;
-            size_t line = (size_t) vh::to_u64(w[3]);
-            vh::emit("> failat %d %s %lu", n, FILES[fi], (unsigned long) line);
+            unsigned fi = (unsigned) vh::to_u64(w[2]) % NFILES;
+            size_t line = fline(fi, (size_t) vh::to_u64(w[3]));
+            vh::emit("> failat %d %s %lu", n, fname(fi), (unsigned long) line);
             unsigned long id = fa->next;
             fa->designating = true; fa->failNthAllocAt(n, FILES[fi], line); fa->designating = false;
             if (fa->next == id + 1) vh::emit("node %lu", id); else vh::emit("node ?");
         }
         else if (mode == "fa" && w[0] == "alloc" && w.size() == 5) {
             size_t size = (size_t) vh::to_u64(w[1]);
-            unsigned fi = (unsigned) vh::to_u64(w[2]) % 4;
-            size_t line = (size_t) vh::to_u64(w[3]);
+            unsigned fi = (unsigned) vh::to_u64(w[2]) % NFILES;
             char fam = w[4][0];
-            if (fam != 'd' && fam != 'm' && fam != 'n' && fam != 'a') fam = 'd';
+            // d: alloc_memory directly; m/n/a: tracked malloc / operator new / operator new[] with an explicit
+            // location; p/q: plain `new char` / `new char[n]`; t/u: the nothrow forms; M/W: the malloc / new[]
+            // MACROS.  p,q,t,u report "<unknown>":0, M and W this source file and the statement's line.
+            if (!strchr("dmnapqtuMW", fam)) fam = 'd';
+            if (strchr("pqtu", fam)) fi = 5;
+            if (fam == 'M' || fam == 'W') fi = 6;
+            size_t line = fline(fi, (size_t) vh::to_u64(w[3]));
+            if (fam == 'M') line = viamacro::LINE_MALLOC;
+            if (fam == 'W') line = viamacro::LINE_NEW;
             if (size == 0) size = 1;
             if (size > 4096) size = 4096;
-            vh::emit("> alloc %s %lu %c", FILES[fi], (unsigned long) line, fam);
+            vh::emit("> alloc %s %lu %c", fname(fi), (unsigned long) line, fam);
             fa->nfreed = 0;
             const char* res = "ok";
+            TestMemoryAllocator* savedM = getCurrentMallocAllocator();
+            TestMemoryAllocator* savedN = getCurrentNewAllocator();
+            TestMemoryAllocator* savedA = getCurrentNewArrayAllocator();
             if (fam == 'd') {
                 char* p = fa->alloc_memory(size, FILES[fi], line);
                 if (p) { memset(p, 'x', size); fa->free_memory(p, size, FILES[fi], line); }
                 else res = "null";
             }
-            else if (fam == 'm') {
-                TestMemoryAllocator* saved = getCurrentMallocAllocator();
-                setCurrentMallocAllocator(fa);
-                void* p = cpputest_malloc_location(size, FILES[fi], line);
-                if (p) { memset(p, 'x', size); cpputest_free_location(p, FILES[fi], line); }
-                else res = "null";
-                setCurrentMallocAllocator(saved);
-            }
-            else if (fam == 'n') {
-                TestMemoryAllocator* saved = getCurrentNewAllocator();
-                setCurrentNewAllocator(fa);
-                try {
-                    char* p = (char*) operator new(size, FILES[fi], line);
-                    memset(p, 'x', size);
-                    operator delete(p);
-                } catch (std::bad_alloc&) { res = "throw"; }
-                setCurrentNewAllocator(saved);
-            }
             else {
-                TestMemoryAllocator* saved = getCurrentNewArrayAllocator();
-                setCurrentNewArrayAllocator(fa);
+                // the allocator under test is the CURRENT allocator of all three families for the duration of
+                // this one allocation (nothing else may allocate in between: no std:: calls here)
+                setCurrentMallocAllocator(fa); setCurrentNewAllocator(fa); setCurrentNewArrayAllocator(fa);
                 try {
-                    char* p = (char*) operator new[](size, FILES[fi], line);
-                    memset(p, 'x', size);
-                    operator delete[](p);
+                    if (fam == 'm') {
+                        void* p = cpputest_malloc_location(size, FILES[fi], line);
+                        if (p) { memset(p, 'x', size); cpputest_free_location(p, FILES[fi], line); } else res = "null";
+                    }
+                    else if (fam == 'M') {
+                        void* p = viamacro::m_alloc(size);
+                        if (p) { memset(p, 'x', size); viamacro::m_free(p); } else res = "null";
+                    }
+                    else if (fam == 'n') { char* p = (char*) operator new(size, FILES[fi], line); memset(p, 'x', size); operator delete(p); }
+                    else if (fam == 'a') { char* p = (char*) operator new[](size, FILES[fi], line); memset(p, 'x', size); operator delete[](p); }
+                    // g_sink keeps the compiler from eliding the new/delete pairs
+                    else if (fam == 'p') { g_sink = new char; *g_sink = 'x'; delete g_sink; }
+                    else if (fam == 'q') { g_sink = new char[size]; memset(g_sink, 'x', size); delete[] g_sink; }
+                    else if (fam == 't') { g_sink = new (std::nothrow) char; if (g_sink) { *g_sink = 'x'; delete g_sink; } else res = "null"; }
+                    else if (fam == 'u') { g_sink = new (std::nothrow) char[size]; if (g_sink) { memset(g_sink, 'x', size); delete[] g_sink; } else res = "null"; }
+                    else if (fam == 'W') { g_sink = viamacro::n_alloc(size); memset(g_sink, 'x', size); delete[] g_sink; }
                 } catch (std::bad_alloc&) { res = "throw"; }
-                setCurrentNewArrayAllocator(saved);
+                setCurrentMallocAllocator(savedM); setCurrentNewAllocator(savedN); setCurrentNewArrayAllocator(savedA);
             }
             vh::emit("ret %s", res);
             if (fa->nfreed) vh::emit("%s", ids_line("fired", fa->freed, fa->nfreed).c_str());
@@ -162,8 +205,11 @@ void run_case(const vh::Case& c) {
                 if (failures == 1 && a != std::string::npos && e != std::string::npos && e > a) {
                     std::string mid = out.substr(a + strlen(A), e - a - strlen(A));
                     size_t colon = mid.rfind(':');
-                    if (colon != std::string::npos)
-                        vh::emit("check fail at %s %s", mid.substr(0, colon).c_str(), mid.substr(colon + 1).c_str());
+                    if (colon != std::string::npos) {
+                        std::string f = mid.substr(0, colon);
+                        if (f == F6) f = "<harness>";
+                        vh::emit("check fail at %s %s", f.c_str(), mid.substr(colon + 1).c_str());
+                    }
                     else vh::emit("check fail text %s", vh::hex(out).c_str());
                 }
                 else if (failures == 1 && n != std::string::npos && e != std::string::npos && e > n)
@@ -228,6 +274,35 @@ void run_case(const vh::Case& c) {
                 cblocks.push_back(p);
                 if (zero) vh::emit("ret zeros %lu", (unsigned long) n); else vh::emit("ret dirty");
             }
+            vh::emit("count %d", cpputest_malloc_get_count());
+        }
+        else if (mode == "c" && (w[0] == "crealloc" || w[0] == "cfree") && w.size() == 3) {   // crealloc|cfree <block index> <size>
+            bool is_re = w[0] == "crealloc";
+            bool oom = getCurrentMallocAllocator() == NullUnknownAllocator::defaultAllocator();
+            size_t k = cblocks.empty() ? 0 : (size_t) vh::to_u64(w[1]) % cblocks.size();
+            void* old = cblocks.empty() ? 0 : cblocks[k];
+            size_t size = (size_t) vh::to_u64(w[2]); if (size == 0) size = 1; if (size > 4096) size = 4096;
+            // realloc(NULL, n) with the null allocator current crashes inside the leak detector (see report): not driven
+            if ((!old && oom) || (!old && !is_re)) { vh::emit("> skip"); continue; }
+            if (is_re) vh::emit("> crealloc %s %lu", old ? "old" : "null", (unsigned long) size); else vh::emit("> cfree old");
+            g_re_old = old; g_re_size = size; g_re_new = 0;
+            std::string out; size_t failures;
+            {
+                TestTestingFixture fixture;
+                fixture.setTestFunction(is_re ? realloc_body : free_body);
+                fixture.runAllTests();
+                failures = fixture.getFailureCount();
+                out = fixture.getOutput().asCharString();
+            }
+            if (failures) {
+                vh::emit("failure %s", out.find("Allocation/deallocation type mismatch") != std::string::npos ? "mismatch" : "other");
+                if (old) cblocks.erase(cblocks.begin() + (long) k);      // the detector dropped its record: the block is leaked
+            }
+            else if (is_re) {
+                if (g_re_new) { memset((void*) g_re_new, 'x', size); if (old) cblocks[k] = (void*) g_re_new; else cblocks.push_back((void*) g_re_new); vh::emit("ret ok"); }
+                else vh::emit("ret null");
+            }
+            else { cblocks.erase(cblocks.begin() + (long) k); vh::emit("ret ok"); }
             vh::emit("count %d", cpputest_malloc_get_count());
         }
         else vh::emit("> skip");
